@@ -262,7 +262,9 @@ pub enum RCODE {
     BADVERS = 16,
 
     /// Reserved for future use.
-    Reserved,
+    // written back as an unassigned code: the implicit discriminant (17) aliased FormatError
+    // in the 4 bits of the header
+    Reserved = 15,
 }
 
 impl From<u16> for RCODE {
